@@ -6,6 +6,7 @@ flag swap / eventfd write / flag clear / dequeue steps, every batch limit ≥ 1)
   the arithmetic wake invariant (`Verif.Inv.ExecProto.InvA`) and the per-task invariant `InvL` below.
 -/
 import Verif.Inv.ExecProto
+import Verif.Model.StreamSrc
 
 namespace Verif.Props.C10
 open Verif.ExecProto Verif.Inv.ExecProto
@@ -247,5 +248,52 @@ theorem drop_drops_all (s s' : St) (hs : step s .dropExecutor = some s') :
 example : (run { budget := 1024 } [.schedule, .enqueue 0, .swapFlag, .wakeWrite, .loopPoll, .loopDrain, .loopClear,
     .loopDequeue false, .wake 0, .enqueue 0, .loopDequeue true, .swapFlag, .loopDequeue false, .loopPost]).map
     (fun s => (s.delivered, s.polls, s.toWake, s.notified)) = some ([0], [2], 1, 1) := by decide
+
+
+/-! ### StreamSource -/
+
+namespace Stream
+open Verif.StreamSrc
+
+theorem dispatch_item (v : Nat) (r : List Step) (o : List (Option Nat)) :
+    dispatch { rest := .item v :: r, out := o, removed := false } = dispatch { rest := r, out := o ++ [some v], removed := false } := by
+  simp [dispatch, drain, List.append_assoc]
+
+/-- **Every item in order exactly once, then a single `None`, then the source removes itself** — for every stream (every
+    pattern of ready items and `Pending` answers) and whatever was delivered before: once the source has been woken
+    once more than the stream answered `Pending`, the callback has received exactly the stream's remaining items in the
+    stream's order, then one `None`, and the source has asked to be removed. -/
+theorem stream_items_in_order_then_none (l : List Step) (o : List (Option Nat)) :
+    iter (pendings l + 1) { rest := l, out := o, removed := false } =
+      { rest := [], out := o ++ (values l).map some ++ [none], removed := true } := by
+  induction l generalizing o with
+  | nil => simp [iter, dispatch, drain, pendings, values]
+  | cons s r ih =>
+    cases s with
+    | item v =>
+      show iter (pendings r) (dispatch { rest := .item v :: r, out := o, removed := false }) = _
+      rw [dispatch_item]
+      have := ih (o ++ [some v])
+      simp only [iter] at this
+      rw [this]
+      simp [values, List.append_assoc]
+    | pending =>
+      show iter (pendings r + 1) (dispatch { rest := .pending :: r, out := o, removed := false }) = _
+      have hd : dispatch { rest := .pending :: r, out := o, removed := false } = { rest := r, out := o, removed := false } := by
+        simp [dispatch, drain]
+      rw [hd, ih o]
+      simp [values]
+
+/-- … and after that nothing more is delivered, however often the loop dispatches -/
+theorem removed_is_final (s : SS) (h : s.removed = true) (n : Nat) : iter n s = s := by
+  induction n generalizing s with
+  | zero => rfl
+  | succ n ih =>
+    have : dispatch s = s := by simp [dispatch, h]
+    simp only [iter, this]; exact ih s h
+
+example : (iter 3 { rest := [.item 4, .pending, .item 5, .item 6, .pending] }).out = [some 4, some 5, some 6, none] := by decide
+
+end Stream
 
 end Verif.Props.C10
